@@ -39,7 +39,11 @@ pub fn sub(seed: u64) -> Program {
     let cap = g.rng.pick(&CAPS);
     let name = if g.rng.chance(50) { "store".to_string() } else { "sb".to_string() };
     let builder = g.canonical_builder(&name, cap, Policy::Block, &reds, &mws);
-    let stores = vec![StoreCfg { builder, droppable: false, stepper: None, ctor: 0 }];
+    // one program in four ends by dropping a DroppableStore instead of calling stop() (round 11:
+    // C15 with gated, lossy channeled subscribers); decided by the seed without a draw, so every
+    // other seed generates the program it generated before
+    let droppable = seed % 4 == 1;
+    let stores = vec![StoreCfg { builder, droppable, stepper: None, ctor: 0 }];
     // sub 0: the reference direct subscriber, registered for the whole run
     let mut subs = vec![direct(false)];
     let mut main = vec![Op::Build { store: 0 }, Op::AddSub { store: 0, sub: 0, reg: 0 }];
@@ -274,7 +278,7 @@ pub fn sub(seed: u64) -> Program {
     if settle_before_stop {
         main.push(Op::Settle);
     }
-    main.push(Op::Stop { store: 0 });
+    main.push(if droppable { Op::DropStore { store: 0 } } else { Op::Stop { store: 0 } });
     for t in consumers {
         main.push(Op::Join { thread: t });
     }
